@@ -141,6 +141,17 @@ func init() {
 					}
 				}
 			}
+			// checksum widths: the block hashers are shared by the tasks of one Writer
+			for _, cd := range [][2]string{{"NONE", "NONE"}, {"LZ", "HUFFMAN"}} {
+				for _, ck := range []uint{0, 64} {
+					for _, j := range []uint{2, 3, 4, 8, 16} {
+						for _, nb := range []int{int(j), 2*int(j) + 1} {
+							emit(detCase{P: Params{cd[0], cd[1], B, j, ck, -1, false, false}, Shape: "text", Len: nb*B + 37, Reps: 5})
+							emit(detCase{P: Params{cd[0], cd[1], 64 * B, j, ck, -1, false, false}, Shape: "text", Len: nb*64*B + 37, Reps: 3})
+						}
+					}
+				}
+			}
 			// skipBlocks: already-compressed first block followed by compressible ones, and the reverse
 			for _, cd := range [][2]string{{"LZ", "HUFFMAN"}, {"TEXT+UTF+BWT+RANK+ZRLT", "ANS0"}} {
 				for _, j := range []uint{2, 3, 4, 8} {
